@@ -61,6 +61,18 @@ Theorem C12_generated_repeat_shift : forall x n i, (2 <= n * i)%nat -> (n * i <=
 Proof. exact gen_repeat_shift. Qed.
 Print Assumptions C12_generated_repeat_shift.
 
+(** ---- function bodies REGENERATED from the source as glue terms (Gen/ProcessGlue.v), run by the interpreter of Model/GlueFun.v with
+     the leaves of Model/GlueLeaves.v (callees mean their models), are the hand-written models ---- *)
+From TW Require Import Model.GlueLeaves Gen.ProcessGlue Proofs.GlueProcessProofs.
+Open Scope string_scope.
+Theorem C12_glue_repeat : forall x y r, repeat_defined x = true -> (0 <= r)%Z ->
+  outcome_arr_pair (call_fun (process_callf (fun v => v)) array_methf no_apply no_pow process_functions "repeat"
+     [("x", VArr x); ("y", VArr y); ("repeats", VInt r)])
+  = Ok (repeat_series x y (Z.to_nat r)).
+Proof. exact glue_repeat. Qed.
+Print Assumptions C12_glue_repeat.
+Close Scope string_scope.
+
 Example C12_example :
   let r := repeat_series [qz 0; qz 1; qz 3] [qz 5; qz 6; qz 7] 2 in
   list_eqb Qc_eqb (fst r) [qz 0; qz 1; qz 3; qz 5; qz 6; qz 8] && list_eqb Qc_eqb (snd r) [qz 5; qz 6; qz 7; qz 5; qz 6; qz 7] = true.
